@@ -18,7 +18,7 @@ FAMILY_OPS = {
                (6, "get"), (5, "set_s"), (4, "slice"), (4, "mask"), (4, "iop"), (3, "mv"), (3, "ro"), (5, "release"), (2, "gcp")],
     "array2d": [(6, "d_new"), (8, "d_item"), (8, "d_slice"), (7, "d_set_s"), (6, "d_set_a"), (5, "d_set_1d"), (5, "d_mask_get"),
                 (5, "d_mask_set"), (4, "d_bad"), (4, "release"), (2, "gcp")],
-    "varray": [(6, "v_new"), (8, "v_row"), (6, "v_slice"), (5, "v_mask"), (7, "v_set_row"), (5, "v_set_v"), (5, "v_set_m"), (5, "v_size"),
+    "varray": [(6, "v_new"), (8, "v_row"), (6, "v_slice"), (7, "v_mask"), (7, "v_set_row"), (8, "v_set_v"), (5, "v_set_m"), (5, "v_size"),
                (4, "v_resize"), (4, "v_ro"), (4, "v_bad"), (6, "get"), (5, "set_s"), (4, "iop"), (3, "ro"), (8, "release"), (3, "gcp")],
     "string": [(6, "s_new"), (9, "s_get"), (6, "s_slice"), (5, "s_mask"), (9, "s_set"), (5, "s_set_m"), (5, "s_set_v"), (4, "s_eq"),
                (4, "s_ro"), (4, "s_bad"), (6, "release"), (2, "gcp")],
@@ -647,7 +647,7 @@ class FamilyMixin:
 
     def op_v_set_v(self, op):
         """va[idx] = FixedVArray: replace the selected items"""
-        h = self.pick_va(op)
+        h = (self.pick_va(op, lambda x: x.masked) if op["k"] % 5 < 3 else None) or self.pick_va(op)
         if not h:
             return False
         self.sig_ctx = ("varray-setitem-items", h.hkind(), h.vtype)
